@@ -252,6 +252,54 @@ def run_mined(chk, rng, nblocks, w_seed):
     return parents
 
 
+def deliver_to_node(chk, rng, blocks_real, parents_of, arrival, tag, w):
+    """a real node (genesis only) receives the blocks over the wire, as relayed blocks, in the given parent-before-child
+    order; after every arrival its chain state is compared with the model like any other history"""
+    from skv import nodekit
+    empty = gen.World(rng)
+    sn = nodekit.SingleNode(empty, rng, tag, npeers=2)
+    try:
+        sn.net.clock.t = max(b.timestamp for b in blocks_real.values()) + 100
+        model = Model()
+        ids = [empty.gid]
+        pos = {empty.gid: 0}
+        prev_cs = sn.cm.coinstate
+        for bid in arrival:
+            model.add(pos[parents_of[bid]])
+            ids.append(bid)
+            pos[bid] = len(ids) - 1
+            raw = rng.choice(sn.active() or [sn.add_peer()])
+            raw.push(sn.wire.block(blocks_real[bid]))
+            sn.settle(fragment=rng.random() < 0.3)
+            cs = sn.cm.coinstate
+            chk.c["node_lane_arrivals"] = chk.c.get("node_lane_arrivals", 0) + 1
+            if bid not in cs.block_by_hash:
+                chk.v("node:arrived-block-not-in-chain-state", "a valid block (arrival %d, height %d) delivered to a running node "
+                      "after its parent is not part of the node's chain state" % (len(ids) - 1, model.height[-1]), w)
+                break
+            chk.after_add(cs, prev_cs, model, ids, w, full_index=False, rng=rng)
+            prev_cs = cs
+        esc = sn.escaped()
+        if esc:
+            chk.v("node:exception-escaped", esc[0][:200], w)
+    finally:
+        sn.close()
+
+
+def node_lane(chk, rng, ntrees):
+    from skv.props import c03
+    for j in range(ntrees):
+        world = gen.World(rng)
+        world.grow(rng.choice([8, 12, 16]), rng, tx_prob=0.3, bias="mixed")
+        ids = world.chain.order[1:]
+        arrival = c03.topo_orders(world.chain, ids, rng, 1)[0]
+        w = {"kind": "node", "blocks": gen.blocks_hex(world, arrival)}
+        chk.c["node_lane_trees"] = chk.c.get("node_lane_trees", 0) + 1
+        chk.digests.add(digest("node", b"".join(arrival)))
+        deliver_to_node(chk, rng, {b: world.real[b] for b in ids}, {b: world.chain.blocks[b].prev for b in ids}, arrival,
+                        "c04-node-%d" % j, w)
+
+
 def run_shard(spec):
     env.boot()
     from skepticoin.coinstate import CoinState
@@ -261,7 +309,11 @@ def run_shard(spec):
     chk = Checker()
     if "replay" in spec:
         w = spec["replay"]
-        if "parents_rle" in w:
+        if w.get("kind") == "node":
+            rbs = [ref.parse_block(bytes.fromhex(hx)) for hx in w["blocks"]]
+            deliver_to_node(chk, random.Random(1), {rb.id(): bridge.rblock_to_real(rb) for rb in rbs}, {rb.id(): rb.prev for rb in rbs},
+                            [rb.id() for rb in rbs], "c04-replay", w)
+        elif "parents_rle" in w:
             run_vector(chk, mods, unrle(w["parents_rle"]), sampled=random.Random(1), tseed=w.get("target_seed"))
         elif w.get("kind") == "vector" or "parents" in w:
             run_vector(chk, mods, w["parents"], tseed=w.get("target_seed"))
@@ -324,6 +376,8 @@ def run_shard(spec):
         vec += [len(vec), rng.randrange(len(vec)), rng.randrange(1, 20), 0, len(vec) + 2]
         run_vector(chk, mods, vec, sampled=rng)
         chk.c["very_long_histories"] = chk.c.get("very_long_histories", 0) + 1
+    if spec["shard"] % 2 == 0:
+        node_lane(chk, rng, 2 if quick else 25)
     samples.append({"kind": "exhaustive parent vectors", "up_to_new_blocks": nmax, "example": [0, 0, 1, 1, 2]})
     return {"evaluations": chk.c["arrivals_checked"], "digests": sorted(chk.digests), "violations": chk.viol,
             "counters": chk.c, "samples": samples, "exhaustive": True}
@@ -345,6 +399,7 @@ def finalize(m, tier):
                    ("histories_with_varying_targets", c.get("histories_with_varying_targets", 0), total), ("ties_observed", c.get("ties_observed", 0), 1000),
                    ("reorg_switches", c.get("reorg_switches", 0), 500), ("validated_adds", c.get("validated_adds", 0), 300),
                    ("long_histories", c.get("long_histories", 0), 20),
-                   ("very_long_histories", c.get("very_long_histories", 0), 10)],
+                   ("very_long_histories", c.get("very_long_histories", 0), 10),
+                   ("node_lane_arrivals", c.get("node_lane_arrivals", 0), 100)],
         "extra": {"exhaustive_bound": "all %d parent vectors with at most %d blocks after genesis" % (total, nmax)},
     }
